@@ -14,13 +14,13 @@ Proof.
 Qed.
 
 Lemma store_needs_verified_lemma : forall s b s', reachable s -> step s (StoreOk b) = Some s' ->
-  memb b (pend s) = true /\ okb b = true /\ In b (hist s) /\
+  memb b (pend s) = true /\ okb b = true /\ stb b = true /\ In b (hist s) /\
   extendsb (loc s) b = true /\ loc s' = b :: loc s /\ canc s = false /\ rv s = RIdle.
 Proof.
   intros s b s' R H. destruct (Inv_reachable s R) as [_ [[_ [_ [_ [_ [Hp _]]]]] _]].
-  simpl in H. destruct (negb (canc s) && is_idle (rv s) && obox_empty s && memb b (pend s) && extendsb (loc s) b) eqn:E;
+  simpl in H. destruct (negb (canc s) && is_idle (rv s) && obox_empty s && memb b (pend s) && extendsb (loc s) b && stb b) eqn:E;
     [|discriminate]. injection H as <-. split_andb.
-  destruct (Hp b) as [Ho Hh]; [apply memb_In; auto|].
+  destruct (Hp b) as [Ho Hh]; [apply memb_In; auto|]. rewrite gen_genuine in Hh; auto.
   repeat split; auto. destruct (rv s); [auto|discriminate].
 Qed.
 
@@ -36,14 +36,16 @@ Qed.
 
 Lemma infl_only_by_fetch_lemma : forall s e s' b, step s e = Some s' -> In b (infl s') ->
   In b (infl s) \/ (exists h, (e = FetchOk h /\ at_num (src s) h = Some b) \/
-                              (e = FetchCorrupt h /\ okb b = false)).
+                              (e = FetchCorrupt h /\ okb b = false) \/
+                              (e = FetchUnstorable h /\ stb b = false)).
 Proof.
   intros s e s' b H Hin. unfold step in H.
   destruct e; break_step H; simpl in Hin; auto;
     try (unfold stop_revert in Hin; simpl in Hin; auto; fail);
     try contradiction.
   - destruct Hin as [<-|Hin]; auto. right; exists h; left; auto.
-  - destruct Hin as [<-|Hin]; auto. right; exists h; right; auto.
+  - destruct Hin as [<-|Hin]; auto. right; exists h; right; left; auto.
+  - destruct Hin as [<-|Hin]; auto. right; exists h; right; right; auto.
 Qed.
 
 (* ---------- head_back_only_by_revert ---------- *)
